@@ -27,6 +27,10 @@ SPECS = {
                     arrows=[('susceptible', 'exposed'), ('exposed', 'recovered')], dies=True),
     'Gonorrhea': dict(flags=['susceptible', 'infected', 'symptomatic'], part=['susceptible', 'infected'], subs=[('symptomatic', 'infected')], arrows=[('susceptible', 'infected'), ('infected', 'susceptible')], dies=False),
     'HIV': dict(flags=['susceptible', 'infected', 'on_art'], part=['susceptible', 'infected'], subs=[], arrows=[('susceptible', 'infected')], dies=False),
+    'Syphilis': dict(flags=['susceptible', 'exposed', 'primary', 'secondary', 'latent_temp', 'latent_long', 'tertiary', 'congenital'],
+                     part=['susceptible', 'exposed', 'primary', 'secondary', 'latent_temp', 'latent_long', 'tertiary', 'congenital'], subs=[],
+                     arrows=[('susceptible', 'exposed'), ('susceptible', 'congenital'), ('exposed', 'primary'), ('primary', 'secondary'), ('secondary', 'latent_temp'), ('secondary', 'latent_long'),
+                             ('latent_temp', 'secondary'), ('latent_long', 'tertiary')], dies=False),
 }
 SYPH_STAGES = ['exposed', 'primary', 'secondary', 'latent_temp', 'latent_long', 'tertiary']
 
@@ -54,7 +58,8 @@ class CallRecorder:
                         ti = int(self_.ti)
                         out = orig(self_, *a, **kw)
                         after = {f: np.asarray(getattr(self_, f).raw[:n]).copy() for f in flags}
-                        rec.calls.append(dict(cls=cname, meth=meth, ti=ti, n=n, before=before, after=after, timers=timers, uids=uids, auids=np.asarray(self_.sim.people.auids).copy()))
+                        timers_after = {k: np.asarray(v.raw[:n], dtype=float).copy() for k, v in self_.__dict__.items() if k.startswith('ti_') and hasattr(v, 'raw')}
+                        rec.calls.append(dict(cls=cname, meth=meth, ti=ti, n=n, before=before, after=after, timers=timers, timers_after=timers_after, uids=uids, auids=np.asarray(self_.sim.people.auids).copy()))
                         return out
                     return wrapper
                 setattr(cls, meth, make(orig, cname, meth))
@@ -272,7 +277,9 @@ def run(ctx):
                     cv = {}
                     ok = True
                     for ctext in conds:
-                        v = eval_cond(ctext, call['timers'], call['ti'], u, call['before'])
+                        # Syphilis.step_state re-schedules later stages inside the call (set_*_prognoses) before it tests them: those tests see the new timers
+                        tm = call['timers_after'] if (call['cls'] == 'Syphilis' and 'ti_secondary' not in ctext) else call['timers']
+                        v = eval_cond(ctext, tm, call['ti'], u, call['before'])
                         if v is None: ok = False
                         cv[ctext] = bool(v)
                     if not ok: continue
